@@ -421,6 +421,10 @@ func c05CheckBundle(c *rt.C, b *jBundle, id, class string) {
 		cp, err := compileBundlePackage(mb, pkg)
 		if err != nil {
 			c.Event("bundle_does_not_compile")
+			c.Feature("c05:compile-failed/" + id + "/" + errSig(err))
+			if c.Runner().Arg("show", "") != "" {
+				fmt.Printf("COMPILE-FAIL %s: %v\n%s\n", id, err, bundleBytes(src))
+			}
 			return
 		}
 		for _, f := range cp.Files {
@@ -477,8 +481,12 @@ func runC05(r *rt.Runner) {
 		}
 		fields = append(fields, fld("bigMax", tInt("UINT64").with(func(t *jT) { t.Rules = &jRules{Max: pI(9223372036854775807)} })))
 		fields = append(fields, fld("bigLen", tScalar(kString).with(func(t *jT) { t.Rules = &jRules{MaxLen: pU(18446744073709551615)} })))
+		pF := func(v float64) *float64 { return &v }
+		fields = append(fields, fld("ratio", tFloat("FLOAT64").with(func(t *jT) { t.Rules = &jRules{FMin: pF(0.1), FMax: pF(3.141592653589793)} })))
+		fields = append(fields, fld("tiny", tFloat("FLOAT64").with(func(t *jT) { t.Rules = &jRules{FMin: pF(0.000001234), FMax: pF(12345678901234567890)} })))
+		fields = append(fields, fld("third", tFloat("FLOAT64").with(func(t *jT) { t.Rules = &jRules{FMin: pF(1.0 / 3.0), FMax: pF(16777217)} })))
 		fields = append(fields, fld("when", tScalar(kDate).with(func(t *jT) { t.Rules = &jRules{SMin: pS("2020-01-01"), SMax: pS("2030-01-01"), SExMax: pB(true)} })))
-		info := map[string]map[string]string{"RED": {"hex": "ff\"00\\00", "name": "réd", "z": "", "a b": "x\ny"}}
+		info := map[string]map[string]string{"RED": {"hex": "ff\"00\\00", "name": "réd", "z": "", "ab": "x\ny"}}
 		b := elemsBundle(&jElem{Decl: &jDecl{Kind: kObject, Name: "Escapes", Fields: fields}}, &jElem{Decl: &jDecl{Kind: kEnum, Name: "Color", Options: []string{"RED", "GREEN"}, OptInfo: info}})
 		c05CheckBundle(c, b, "options/escapes", "option-values")
 		c.Feature("c05:option-values")
@@ -494,8 +502,14 @@ func runC05(r *rt.Runner) {
 			"nested-named-parent": elemsBundle(objDecl("Holder", fld("inner", inner("Holder")))),
 			"two-parents-same-nested": elemsBundle(objDecl("Left", fld("part", inner("Part"))), objDecl("Right", fld("part", inner("Part")))),
 			"nested-refers-parent":    elemsBundle(objDecl("Tree", fld("branch", &jT{Kind: kObject, Inline: &jDecl{Kind: kObject, Fields: []*jF{fld("tree", tRef(kObject, "Tree", "iso.v1.Tree"))}}}))),
-			"enum-and-message":        elemsBundle(objDecl("Holder", fld("kind", &jT{Kind: kEnum, Inline: &jDecl{Kind: kEnum, Options: []string{"A", "B"}}}), fld("kinds", tArr(tRef(kEnum, "Kind", "iso.v1.Holder.Kind"))))),
 		}
+		inlineEnum := func() *jT { return &jT{Kind: kEnum, Inline: &jDecl{Kind: kEnum, Options: []string{"ON", "OFF"}}} }
+		// a nested type (named after its field) that has the name of a package-level type which a sibling field refers to
+		bundles["nested-enum-shadows-top-enum"] = elemsBundle(enumDecl("Status", "OPEN", "DONE"), objDecl("Job", fld("status", inlineEnum()), fld("overall", tRef(kEnum, "Status", "iso.v1.Status"))))
+		bundles["nested-enum-shadows-top-enum-ref-first"] = elemsBundle(enumDecl("Status", "OPEN", "DONE"), objDecl("Job", fld("overall", tRef(kEnum, "Status", "iso.v1.Status")), fld("status", inlineEnum())))
+		bundles["nested-enum-shadows-top-message"] = elemsBundle(objDecl("Status", fld("text", tScalar(kString))), objDecl("Job", fld("status", inlineEnum()), fld("overall", tRef(kObject, "Status", "iso.v1.Status")), fld("all", tArr(tRef(kObject, "Status", "iso.v1.Status")))))
+		bundles["nested-message-shadows-top-enum"] = elemsBundle(enumDecl("Mode", "FAST", "SLOW"), objDecl("Job", fld("mode", &jT{Kind: kObject, Inline: &jDecl{Kind: kObject, Fields: []*jF{fld("label", tScalar(kString))}}}), fld("overall", tRef(kEnum, "Mode", "iso.v1.Mode")), fld("byName", tMap(tRef(kEnum, "Mode", "iso.v1.Mode")))))
+		bundles["nested-oneof-shadows-top-message"] = elemsBundle(objDecl("Choice", fld("text", tScalar(kString))), objDecl("Job", fld("choice", &jT{Kind: kOneof, Inline: &jDecl{Kind: kOneof, Fields: []*jF{fld("left", &jT{Kind: kObject, Inline: &jDecl{Kind: kObject, Fields: []*jF{fld("x", tScalar(kString))}}})}}}), fld("overall", tRef(kObject, "Choice", "iso.v1.Choice"))))
 		for _, name := range rt.SortedKeys(bundles) {
 			c05CheckBundle(c, bundles[name], "scoping/"+name, "scoping")
 		}
